@@ -274,7 +274,7 @@ FieldVals(C, v, b) ==
   [j \in DOMAIN C.fs |->
      IF j \in b.bound
      THEN Img(C.fs[j].t, v.ps[CHOOSE i \in b.known : b.idx[i] = j][2])
-     ELSE C.fs[j].d.v]
+     ELSE Dec(C.fs[j].d.v)]
 
 HookRejects(C, vals) ==
   IF C.hook.k = "nohook" THEN "F"
@@ -309,7 +309,7 @@ ClsImg(C, v) ==
               IF C.fs[j].kw = "T" \/ ~IsInit(C.fs[j]) THEN 0
               ELSE Cardinality({i \in 1..j : C.fs[i].kw = "F" /\ IsInit(C.fs[i])}) IN
        [fv |-> [j \in DOMAIN C.fs |->
-                  IF pidx(j) # 0 /\ pidx(j) <= n THEN Img(C.fs[j].t, v.xs[pidx(j)]) ELSE C.fs[j].d.v],
+                  IF pidx(j) # 0 /\ pidx(j) <= n THEN Img(C.fs[j].t, v.xs[pidx(j)]) ELSE Dec(C.fs[j].d.v)],
         set |-> {C.fs[j].n : j \in {i \in DOMAIN C.fs : pidx(i) # 0 /\ pidx(i) <= n}}]
 
 MkInst(C, ci) ==
@@ -412,6 +412,74 @@ SerOK(T, x, d) ==
                  /\ \A i \in DOMAIN outs : d.ps[i][1] = MkStr(outs[i].out) /\ SerOK(outs[i].t, xval(outs[i].n), d.ps[i][2])
             ELSE /\ d.k = "seq" /\ d.f = "tuple" /\ Len(d.xs) = Len(outs)
                  /\ \A i \in DOMAIN outs : SerOK(outs[i].t, xval(outs[i].n), d.xs[i])
+
+-----------------------------------------------------------------------------
+(* Preconditions of the round-trip properties (C05, C06).                                   *)
+(* OutEnabled(T): every dataclass inside T writes a form it reads back: the output layout is *)
+(* an enabled input layout, each written name is an input name of its field, and excluded    *)
+(* fields can be re-created from a default.                                                  *)
+RECURSIVE OutEnabled(_)
+OutEnabled(T) ==
+  CASE T.k \in ScalarKinds \cup {"lit", "enum"} -> TRUE
+    [] T.k \in SeqKinds -> OutEnabled(T.e)
+    [] T.k = "tuple" -> \A i \in DOMAIN T.es : OutEnabled(T.es[i])
+    [] T.k \in {"dict", "defaultdict", "ordereddict"} -> OutEnabled(T.kt) /\ OutEnabled(T.vt)
+    [] T.k = "counter" -> OutEnabled(T.kt)
+    [] T.k = "struct" -> \A i \in DOMAIN T.fs : OutEnabled(T.fs[i][2])
+    [] T.k = "union" -> \A i \in DOMAIN T.alts : OutEnabled(T.alts[i])
+    [] T.k = "ann" -> OutEnabled(T.t)
+    [] T.k = "sub" -> OutEnabled(T.base)
+    [] T.k = "tvar" -> \A i \in DOMAIN T.ts : OutEnabled(T.ts[i])
+    [] T.k = "tagged" -> \A i \in DOMAIN T.vars : OutEnabled(T.vars[i])
+    [] T.k = "cls" ->
+         /\ T.outf \in Range(T.inf)
+         /\ \A i \in DOMAIN T.fs :
+              LET f == T.fs[i] IN
+              /\ OutEnabled(f.t)
+              /\ (f.ex = "T" \/ f.init = "F") => HasDefault(f)
+              /\ (f.ex = "F" /\ T.outf = "struct") => \E j \in DOMAIN f.ins : f.ins[j] = f.out
+              /\ (f.ex = "F") => f.init = "T"
+
+(* <<class name, field name>> of every field excluded from output anywhere inside T *)
+RECURSIVE ExSet(_)
+ExSet(T) ==
+  CASE T.k \in ScalarKinds \cup {"lit", "enum"} -> {}
+    [] T.k \in SeqKinds -> ExSet(T.e)
+    [] T.k = "tuple" -> UNION {ExSet(T.es[i]) : i \in DOMAIN T.es}
+    [] T.k \in {"dict", "defaultdict", "ordereddict"} -> ExSet(T.kt) \cup ExSet(T.vt)
+    [] T.k = "counter" -> ExSet(T.kt)
+    [] T.k = "struct" -> UNION {ExSet(T.fs[i][2]) : i \in DOMAIN T.fs}
+    [] T.k = "union" -> UNION {ExSet(T.alts[i]) : i \in DOMAIN T.alts}
+    [] T.k = "ann" -> ExSet(T.t)
+    [] T.k = "sub" -> ExSet(T.base)
+    [] T.k = "tvar" -> UNION {ExSet(T.ts[i]) : i \in DOMAIN T.ts}
+    [] T.k = "tagged" -> UNION {ExSet(T.vars[i]) : i \in DOMAIN T.vars}
+    [] T.k = "cls" -> {<<T.name, T.fs[i].n>> : i \in {j \in DOMAIN T.fs : T.fs[j].ex = "T"}}
+                      \cup UNION {ExSet(T.fs[i].t) : i \in DOMAIN T.fs}
+
+(* Python's == on typed values, modulo the fields the user excluded: set-field records are    *)
+(* not compared by ==, excluded fields are blanked                                            *)
+RECURSIVE StripX(_, _)
+StripX(x, ES) ==
+  CASE x.k = "seq"  -> [x EXCEPT !.xs = [i \in DOMAIN x.xs |-> StripX(x.xs[i], ES)]]
+    [] x.k = "map"  -> [x EXCEPT !.ps = [i \in DOMAIN x.ps |-> <<StripX(x.ps[i][1], ES), StripX(x.ps[i][2], ES)>>]]
+    [] x.k = "set"  -> [x EXCEPT !.es = {StripX(y, ES) : y \in x.es}]
+    [] x.k = "sub"  -> [x EXCEPT !.x = StripX(x.x, ES)]
+    [] x.k = "inst" -> [x EXCEPT !.fs = [i \in DOMAIN x.fs |->
+                                           <<x.fs[i][1], IF <<x.c, x.fs[i][1]>> \in ES THEN MkNone ELSE StripX(x.fs[i][2], ES)>>],
+                                 !.set = {}]
+    [] OTHER -> x
+
+(* values made only of the container flavours pane itself produces (an arbitrary Sequence or  *)
+(* Mapping passed through Any is returned as is; what it serialises to is left open)          *)
+RECURSIVE StdVal(_)
+StdVal(x) ==
+  CASE x.k = "seq"  -> x.f # "other" /\ \A i \in DOMAIN x.xs : StdVal(x.xs[i])
+    [] x.k = "map"  -> x.f # "proxy" /\ \A i \in DOMAIN x.ps : StdVal(x.ps[i][1]) /\ StdVal(x.ps[i][2])
+    [] x.k = "set"  -> \A y \in x.es : StdVal(y)
+    [] x.k = "sub"  -> StdVal(x.x)
+    [] x.k = "inst" -> \A i \in DOMAIN x.fs : StdVal(x.fs[i][2])
+    [] OTHER -> TRUE
 
 -----------------------------------------------------------------------------
 (* Equality of serialised data up to the order in which sets were written:  *)
